@@ -1293,6 +1293,24 @@ fn eval_c17(case: &Case, sc: &mut Scratch, res: &mut EvalResult) {
         } else {
             last_clean = None;
         }
+        if o.class == ResultClass::Err && !fault_fired && inv.faults.is_empty() {
+            // a run may fail because of its inputs, never because of what earlier runs (or anybody
+            // else) left in the output location: the same run into an empty location decides
+            res.stats.check("c17_failure_independent_of_old_output");
+            let r = reference_run(sc, tree, inv, &mut res.stats);
+            if r.class == ResultClass::Ok {
+                res.violations.push(Violation {
+                    property: "C17".into(),
+                    class: "FAILS_BECAUSE_OF_EARLIER_OUTPUT".into(),
+                    detail: ctxs.clone(),
+                    message: format!(
+                        "run #{idx} fails ({}) although the same run into an empty location succeeds: the outcome depends on what was in the output location",
+                        o.err_text.lines().next().unwrap_or("")
+                    ),
+                    op_index: idx,
+                });
+            }
+        }
         if o.class == ResultClass::Ok && !fault_fired && identical_rerun {
             // "running again with unchanged sources leaves every output file byte-identical and
             // untouched" - whatever the time of day, the schedule or the hash seed
